@@ -506,7 +506,7 @@ class FunctionalLeftScalarMult(Functional, OperatorLeftScalarMult):
         odl.solvers.nonsmooth.proximal_operators.proximal_const_func
         """
 
-        if self.scalar < 0:
+        if self.scalar < 0 and not self.functional.is_linear:
             raise ValueError('proximal operator of functional scaled with a '
                              'negative value {} is not well-defined'
                              ''.format(self.scalar))
